@@ -380,6 +380,56 @@ def wide_programs(sizes, small_exhaustive=7):
                 yield prog
 
 
+# ------------------------------------------------------------------ bursts
+BURST_PRIO = (5, 5, 1, 10, 5, 7)
+
+
+def burst_programs(k):
+    """programs with k events at ONE time (1) and one event later (2):
+    'batch' = all scheduled by construct_model with tie-rich priorities,
+    'chain' = each handler schedules the next one at the current time,
+    'fan'   = the first handler schedules the k-1 others (now / rel 0 / abs),
+    'ladder'= k events at k distinct times in scrambled scheduling order.
+    Counts beyond a dozen reach thresholds no small handler tree reaches."""
+    batch = {-1: [("s", "abs", 1, BURST_PRIO[i % 6], i) for i in range(k)]
+             + [("s", "abs", 2, 5, k)]}
+    for i in range(k + 1):
+        batch[i] = []
+    yield "batch", batch, END
+    chain = {-1: [("s", "abs", 1, 5, 0)]}
+    for i in range(k):
+        chain[i] = [("s", "now", 0, 5, i + 1)] if i < k - 1 else \
+            [("s", "rel", 1, 5, k)]
+    chain[k] = []
+    yield "chain", chain, END
+    if k >= 3:
+        fan = {-1: [("s", "abs", 1, 10, 0), ("s", "abs", 2, 5, k)]}
+        fan[0] = [("s", ("now", "rel", "abs")[i % 3], 0, BURST_PRIO[i % 6], i)
+                  for i in range(1, k)]
+        for i in range(1, k + 1):
+            fan[i] = []
+        yield "fan", fan, END
+        step = next(s for s in (7, 5, 3, 11, 13) if math.gcd(s, k) == 1)
+        # distinct times 1..k scheduled in stride order; replication [0,k+2]
+        ladder = {-1: []}
+        for i in range(k):
+            j = (i * step) % k
+            ladder[-1].append(("s", "abs", 1 + j, 5, i))
+            ladder[i] = []
+        yield "ladder", ladder, k + 2
+        # three times, one priority: ties on (time, priority) everywhere,
+        # late events scheduled before early ones
+        for nm, mul in (("strata", 1), ("strata-desc", -1)):
+            strata = {-1: []}
+            for i in range(k):
+                j = (i * step) % k
+                strata[-1].append(("s", "abs", 2 + mul * ((j % 3) - 1), 5, i))
+                strata[i] = []
+            strata[-1].append(("s", "abs", 2, 5, k))
+            strata[k] = []
+            yield nm, strata, END
+
+
 # ------------------------------------------------------------------ lockstep
 STATES = {"INIT": ("INITIALIZED", "INITIALIZED"),
           "STOPPED": ("STOPPED", "STARTED"), "ENDED": ("ENDED", "ENDED")}
